@@ -192,7 +192,7 @@ def lib_mod():
         Sel('struct Error'),
         trait_sel(True),
         trait_sel(False),
-        Sel('fn xor', fns={'xor': K.xor_fn(props=('C05',))}),
+        Sel('fn xor', fns={'xor': K.xor_fn(props=P)}),
         Sel('fn ecb_enc', fns={'ecb_enc': ecb_fn(True)}),
         Sel('fn ecb_dec', fns={'ecb_dec': ecb_fn(False)}),
         Sel('fn cbc_dec', fns={'cbc_dec': CBC_DEC}),
